@@ -157,6 +157,178 @@ fn walk(dir: &Path, files: &mut Vec<String>) {
     }
 }
 
+
+// ---------------------------------------------------------------------------------------------
+// `translate sites <dir>`: facts for C19 (hashed collections, hasher definitions, impure names).
+
+const HASHED: &[&str] = &["HashMap", "HashSet"];
+const IMPURE: &[&str] = &[
+    "RandomState", "SystemTime", "Instant", "thread_rng", "getrandom", "thread_local", "lazy_static", "OnceCell",
+    "OnceLock", "LazyLock", "LazyCell", "Mutex", "RwLock", "AtomicUsize", "AtomicU64", "AtomicU32", "AtomicBool",
+    "AtomicIsize", "AtomicI64", "ThreadId", "temp_dir", "current_dir", "File", "read_to_string", "tracked_env",
+    "tracked_path", "UNIX_EPOCH", "available_parallelism",
+];
+
+fn path_str(p: &syn::Path) -> String {
+    let mut s = String::new();
+    if p.leading_colon.is_some() {
+        s.push_str("::");
+    }
+    for (i, seg) in p.segments.iter().enumerate() {
+        if i > 0 {
+            s.push_str("::");
+        }
+        s.push_str(&seg.ident.to_string());
+    }
+    s
+}
+
+fn use_leaves(prefix: &str, t: &syn::UseTree, out: &mut Vec<(String, String, usize)>) {
+    match t {
+        syn::UseTree::Path(p) => {
+            let pre = if prefix.is_empty() { p.ident.to_string() } else { format!("{prefix}::{}", p.ident) };
+            use_leaves(&pre, &p.tree, out)
+        }
+        syn::UseTree::Name(n) => {
+            out.push((n.ident.to_string(), format!("{prefix}::{}", n.ident), n.ident.span().start().line))
+        }
+        syn::UseTree::Rename(r) => {
+            out.push((r.rename.to_string(), format!("{prefix}::{}", r.ident), r.ident.span().start().line))
+        }
+        syn::UseTree::Glob(g) => out.push(("*".into(), format!("{prefix}::*"), g.star_token.span.start().line)),
+        syn::UseTree::Group(g) => {
+            for i in &g.items {
+                use_leaves(prefix, i, out)
+            }
+        }
+    }
+}
+
+struct SiteVisitor {
+    uses: Vec<(String, String, usize)>,
+    mentions: Vec<(String, String, usize)>, // (ident, written path, line)
+    aliases: Vec<String>,
+    hashers: Vec<String>,
+    statics: Vec<(String, usize, bool)>,
+}
+
+impl<'ast> syn::visit::Visit<'ast> for SiteVisitor {
+    fn visit_item_use(&mut self, u: &'ast syn::ItemUse) {
+        let pre = if u.leading_colon.is_some() { "::" } else { "" };
+        let mut leaves = Vec::new();
+        use_leaves("", &u.tree, &mut leaves);
+        for (n, p, l) in leaves {
+            self.uses.push((n, format!("{pre}{p}"), l));
+        }
+    }
+    fn visit_path(&mut self, p: &'ast syn::Path) {
+        for seg in &p.segments {
+            let id = seg.ident.to_string();
+            if HASHED.contains(&id.as_str()) {
+                self.mentions.push((id, path_str(p), seg.ident.span().start().line));
+            }
+        }
+        syn::visit::visit_path(self, p);
+    }
+    fn visit_item_type(&mut self, t: &'ast syn::ItemType) {
+        let id = t.ident.to_string();
+        if HASHED.contains(&id.as_str()) {
+            if let syn::Type::Path(tp) = &*t.ty {
+                let last = tp.path.segments.last().unwrap();
+                let mut args = Vec::new();
+                if let syn::PathArguments::AngleBracketed(a) = &last.arguments {
+                    for g in &a.args {
+                        args.push(quote::ToTokens::to_token_stream(g).to_string().replace(' ', ""));
+                    }
+                }
+                self.aliases.push(format!(
+                    "{{\"name\":{},\"target\":{},\"args\":[{}],\"line\":{}}}",
+                    js(&id), js(&path_str(&tp.path)), args.iter().map(|a| js(a)).collect::<Vec<_>>().join(","),
+                    t.ident.span().start().line
+                ));
+            }
+        }
+        syn::visit::visit_item_type(self, t);
+    }
+    fn visit_item_impl(&mut self, i: &'ast syn::ItemImpl) {
+        if let Some((_, tr, _)) = &i.trait_ {
+            if tr.segments.last().map(|s| s.ident == "BuildHasher").unwrap_or(false) {
+                let ty = quote::ToTokens::to_token_stream(&*i.self_ty).to_string().replace(' ', "");
+                let mut hasher = String::new();
+                let mut body = String::new();
+                for it in &i.items {
+                    match it {
+                        syn::ImplItem::Type(t) if t.ident == "Hasher" => {
+                            hasher = quote::ToTokens::to_token_stream(&t.ty).to_string().replace(' ', "")
+                        }
+                        syn::ImplItem::Fn(f) if f.sig.ident == "build_hasher" => {
+                            body = quote::ToTokens::to_token_stream(&f.block).to_string().replace(' ', "")
+                        }
+                        _ => {}
+                    }
+                }
+                self.hashers.push(format!("{{\"for\":{},\"hasher\":{},\"body\":{}}}", js(&ty), js(&hasher), js(&body)));
+            }
+        }
+        syn::visit::visit_item_impl(self, i);
+    }
+    fn visit_item_static(&mut self, s: &'ast syn::ItemStatic) {
+        let m = matches!(s.mutability, syn::StaticMutability::Mut(_));
+        self.statics.push((s.ident.to_string(), s.ident.span().start().line, m));
+        syn::visit::visit_item_static(self, s);
+    }
+}
+
+fn count_idents(ts: TokenStream, names: &[&str], out: &mut Vec<(String, usize)>) {
+    for tt in ts {
+        match tt {
+            TokenTree::Ident(i) => {
+                let s = i.to_string();
+                if names.contains(&s.as_str()) {
+                    out.push((s, i.span().start().line));
+                }
+            }
+            TokenTree::Group(g) => count_idents(g.stream(), names, out),
+            _ => {}
+        }
+    }
+}
+
+fn sites(root: &str) {
+    let mut files = Vec::new();
+    walk(Path::new(root), &mut files);
+    for f in files {
+        let src = fs::read_to_string(&f).unwrap();
+        let ast = match syn::parse_file(&src) {
+            Ok(a) => a,
+            Err(e) => {
+                println!("{{\"file\":{},\"error\":{}}}", js(&f), js(&e.to_string()));
+                continue;
+            }
+        };
+        let mut v = SiteVisitor { uses: vec![], mentions: vec![], aliases: vec![], hashers: vec![], statics: vec![] };
+        syn::visit::visit_file(&mut v, &ast);
+        let ts: TokenStream = src.parse().unwrap();
+        let mut raw = Vec::new();
+        count_idents(ts.clone(), HASHED, &mut raw);
+        let mut impure = Vec::new();
+        count_idents(ts, IMPURE, &mut impure);
+        let uses: Vec<String> = v.uses.iter().filter(|(n, p, _)| HASHED.contains(&n.as_str()) || HASHED.iter().any(|h| p.ends_with(h)) || n == "*")
+            .map(|(n, p, l)| format!("{{\"name\":{},\"path\":{},\"line\":{}}}", js(n), js(p), l)).collect();
+        let mentions: Vec<String> = v.mentions.iter()
+            .map(|(n, p, l)| format!("{{\"name\":{},\"path\":{},\"line\":{}}}", js(n), js(p), l)).collect();
+        let statics: Vec<String> = v.statics.iter()
+            .map(|(n, l, m)| format!("{{\"name\":{},\"line\":{},\"mut\":{}}}", js(n), l, m)).collect();
+        let raws: Vec<String> = raw.iter().map(|(n, l)| format!("[{},{}]", js(n), l)).collect();
+        let imp: Vec<String> = impure.iter().map(|(n, l)| format!("[{},{}]", js(n), l)).collect();
+        println!(
+            "{{\"file\":{},\"uses\":[{}],\"mentions\":[{}],\"aliases\":[{}],\"hashers\":[{}],\"statics\":[{}],\"raw_idents\":[{}],\"impure\":[{}]}}",
+            js(&f), uses.join(","), mentions.join(","), v.aliases.join(","), v.hashers.join(","), statics.join(","),
+            raws.join(","), imp.join(",")
+        );
+    }
+}
+
 fn main() {
     let args: Vec<String> = env::args().collect();
     match args.get(1).map(|s| s.as_str()) {
@@ -180,6 +352,7 @@ fn main() {
                 }
             }
         }
+        Some("sites") => sites(&args[2]),
         Some("tokens") => {
             let src = fs::read_to_string(&args[2]).unwrap();
             let ts: TokenStream = src.parse().unwrap();
